@@ -93,6 +93,12 @@ class Explorer:
             raise Unsupported("feasibility query returned unknown")
         return r == z3.sat
 
+    def implied(self, cond):
+        """True iff the current path condition entails cond (no branching)."""
+        if zx.conc(cond):
+            return bool(cond)
+        return not self._check(z3.Not(cond))
+
     def assume(self, cond):
         """Add a constraint to the current path; abort it if infeasible."""
         if zx.conc(cond):
